@@ -24,4 +24,4 @@ def run(run):
     run.cov["rule"] = ("replay: one case per (x, increment, mode) of the exhaustive small table (both rounder instantiations) and per "
                       "(entry point, unit, admissible increment, sign, parity, remainder class, mode); traces: seeded values q*n+r with ties over-sampled")
     run.cov["distinct_nontrivial"] = run.cov["evaluations"]
-    run.assumptions += ["Instant.round is judged with the signed RoundNumberToIncrement reading of the property (DESIGN.md Appendix A)"]
+    run.assumptions += ["Instant.round (and instant strings) are judged with Temporal's RoundNumberToIncrementAsIfPositive; differences (until/since) and durations with the signed RoundNumberToIncrement (DESIGN.md Appendix A)"]
